@@ -61,7 +61,7 @@ static int cmp_prio(const void *a, const void *b, void *p)
 {
     const struct helem *x = a, *y = b;
     (void)p;
-    return (x->prio > y->prio) - (x->prio < y->prio);
+    return sim_cmp((x->prio > y->prio) - (x->prio < y->prio));
 }
 
 static int hkind[2], cur_h;     /* node member each heap is declared over; heap being audited */
@@ -167,8 +167,8 @@ static uint64_t huge_walk(const struct cstl_bintree_node *n, const struct cstl_b
 
 static void huge_heap(uint64_t nsel, uint64_t seed)
 {
-    static const size_t bases[] = { 255, 256, 257, 4095, 4097, 65535, 65536, 65537, 70000, 131073 };
-    size_t n = bases[nsel % 10], extra = n / 4, np = n + extra, i, live = 0, pushed = 0;
+    static const size_t bases[] = { 255, 256, 257, 4095, 4097, 65535, 65536, 65537, 70000, 131073, 262147, 393300, 524290 };
+    size_t n = bases[nsel % 13], extra = n / 4, np = n + extra, i, live = 0, pushed = 0;
     struct helem *pool = malloc(np * sizeof *pool);
     uint64_t x = seed; int prev; static void *ret;
     int phase;
